@@ -35,7 +35,9 @@ def presets(tier, seed=0):
         pres += [(n, o, pair) for n, o in workload.single_option_variations(a, named[a])]
     # single-option variations of EVERY country-scale preset, each for a seeded sample of countries (the full grid of
     # 164 countries x 36 presets x ~40 variations is beyond a run; thorough: 12 countries per variation, quick: 160 cells in all)
-    rs = random.Random(seed * 97 + 5)
+    # (the sample does not depend on the seed: the cells explored are a fixed set, so that the ones that fail on the unchanged
+    # tree can be listed one by one in known_findings.json; the quick tier draws its 160 cells from that set with the seed)
+    rs = random.Random(97)
     isos_all = workload.all_isos()
     cvar = []
     for n, o, cl in list(pres):
@@ -43,10 +45,12 @@ def presets(tier, seed=0):
             continue
         for vn, vo in workload.single_option_variations(n, o):
             cvar.append((vn, vo))
+    fixed = [(vn, vo, rs.sample(isos_all, 12)) for vn, vo in cvar]
     if tier == "thorough":
-        pres += [(vn, vo, rs.sample(isos_all, 12)) for vn, vo in cvar]
+        pres += fixed
     else:
-        pres += [(vn, vo, [rs.choice(isos_all)]) for vn, vo in rs.sample(cvar, min(160, len(cvar)))]
+        rq = random.Random(seed * 97 + 5)
+        pres += [(vn, vo, [rq.choice(cl)]) for vn, vo, cl in rq.sample(fixed, min(160, len(fixed)))]
     # single-option variations of the world-scale presets (every documented global value of every family)
     for anchor in ganchors:
         pres += [(n, o, ["WOR"]) for n, o in workload.single_option_variations(anchor, named[anchor])]
